@@ -110,6 +110,19 @@ func (v c02Variant) hash() crypto.Hash {
 
 // allVerify verifies (pk, msg, sig) under every preset singly and in a batch and
 // reports how many paths accepted, out of how many.
+// c02companion is a valid (key, message, signature) of another signer, made once per worker.
+var c02companion *struct{ pk, msg, sig []byte }
+
+func c02MakeCompanion() {
+	if c02companion != nil {
+		return
+	}
+	seed := sha512.Sum512_256([]byte("c02 companion"))
+	k := ed25519.NewKeyFromSeed(seed[:])
+	m := []byte("a neighbour in the batch")
+	c02companion = &struct{ pk, msg, sig []byte }{clone(k[32:]), m, ed25519.Sign(k, m)}
+}
+
 func c02AllPaths(r *core.Run, pk, msg, sig []byte, v c02Variant) (acc, total int, detail string) {
 	for i, p := range c02presets {
 		o := &ed25519.Options{Hash: v.hash(), Context: v.ctx, Verify: p}
@@ -137,6 +150,26 @@ func c02AllPaths(r *core.Run, pk, msg, sig []byte, v c02Variant) (acc, total int
 		} else if detail == "" {
 			detail = "batch/" + c02presetNames[i]
 		}
+		// the same entry in company: next to a valid entry, and next to a valid and a malformed one
+		// (a batch in the field is never one signature); its own result must not depend on its neighbours
+		if c02companion != nil {
+			for k := 0; k < 2; k++ {
+				cb := ed25519.NewBatchVerifier()
+				cb.AddWithOptions(c02companion.pk, c02companion.msg, c02companion.sig, &ed25519.Options{Verify: p})
+				cb.AddWithOptions(pk, msg, sig, o)
+				if k == 1 {
+					cb.AddWithOptions(c02companion.pk, c02companion.msg, c02companion.sig[:63], &ed25519.Options{Verify: p})
+				}
+				_, cres := cb.Verify(NewDetReader(uint64(i) + 21))
+				r.Count(c02batches)
+				total++
+				if len(cres) == 2+k && cres[0] && cres[1] {
+					acc++
+				} else if detail == "" {
+					detail = []string{"batch with a valid neighbour/", "batch with a valid and a malformed neighbour/"}[k] + c02presetNames[i]
+				}
+			}
+		}
 		if !p.CofactorlessVerify {
 			bo := bv.VerifyBatchOnly(NewDetReader(uint64(i) + 9))
 			total++
@@ -151,6 +184,7 @@ func c02AllPaths(r *core.Run, pk, msg, sig []byte, v c02Variant) (acc, total int
 }
 
 func runC02(e *Env, r *core.Run) {
+	c02MakeCompanion()
 	t := r.T
 	g := &Gen{T: t}
 	nontrivial := false
